@@ -625,6 +625,23 @@ func TestC16(t *testing.T) {
 			}
 		}
 	}
+	// a key that IS locked: what DM.LOCK does with its deadline (and DM.UNLOCK / leases with a wrong token) is decided in the
+	// retry loop, which a free key never enters.  The request sent first on the connection makes sure somebody holds the key.
+	// Only deadlines that are small or not numbers: waiting for a long deadline is what the command is for.
+	holdKey := [][]string{{"dm.lock", "d", "held", "0.02"}}
+	for _, n := range []string{"", "0", "-1", "-0.5", "abc", "NaN", "0.01", "0.3", "0.000000001", "1e-12", "0.0000000001", "-9223372036854775809", "1e-400"} {
+		for _, cmd := range []string{"dm.lock", "DM.LOCK"} {
+			vs = append(vs, vector{pre: holdKey, args: []string{cmd, "d", "held", n}},
+				vector{pre: holdKey, args: []string{cmd, "d", "held", n, "PX", "10"}},
+				vector{pre: holdKey, args: []string{cmd, "d", "held", n, "EX", "0.01"}},
+				vector{pre: holdKey, args: []string{cmd, "d", "held", n, "px"}})
+		}
+		vs = append(vs, vector{pre: holdKey, args: []string{"dm.locklease", "d", "held", "00ff", n}},
+			vector{pre: holdKey, args: []string{"dm.plocklease", "d", "held", "6c6f636b", n}})
+	}
+	for _, tok := range []string{"00ff", "zz", "", "6c6f636b"} {
+		vs = append(vs, vector{pre: holdKey, args: []string{"dm.unlock", "d", "held", tok}})
+	}
 	for _, rt := range routingTables() {
 		vs = append(vs, vector{args: []string{"internal.node.updaterouting", rt, "@COORD"}}, vector{args: []string{"INTERNAL.NODE.UPDATEROUTING", rt, "@COORD"}})
 	}
